@@ -280,6 +280,11 @@ func checkEncoderVariant(v *tmpl.Variant, m *encoderModel, stream bool) []string
 		byElem[f.Elem] = f
 	}
 	for _, e := range els {
+		if !v.Consulted[e+"ˑRequired"] {
+			bad = append(bad, "the template does not distinguish required from optional for field "+e)
+		} else if !elemRequired(v, e) && !v.Consulted["ƒisNotNilʃ"+e+"ˑDefault"] {
+			bad = append(bad, "the template does not consult the declared default of optional field "+e)
+		}
 		f := byElem[e]
 		if f == nil {
 			bad = append(bad, "field "+e+" is never written")
